@@ -190,7 +190,18 @@ def decode_value(v: Any, objs: dict) -> Any:
         dt = []
         for n, a in fields:
             dt.append((n, a.dtype) if a.ndim == 1 else (n, a.dtype, a.shape[1:]))
-        out = np.zeros(fields[0][1].shape[0], dtype=np.dtype(dt))
+        dtype = np.dtype(dt)
+        if v['$struct'].get('padded'):
+            # the same fields with unused bytes between them and at the end of every row (what align=True or a view
+            # into a larger record array gives): every field starts on the next multiple of 8, 8 spare bytes at the end
+            offs, pos = [], 0
+            for n in dtype.names:
+                pos = (pos + 7) // 8 * 8
+                offs.append(pos)
+                pos += dtype.fields[n][0].itemsize + 1
+            dtype = np.dtype({'names': list(dtype.names), 'formats': [dtype.fields[n][0] for n in dtype.names],
+                              'offsets': offs, 'itemsize': (pos + 7) // 8 * 8 + 8})
+        out = np.zeros(fields[0][1].shape[0], dtype=dtype)
         for n, a in fields:
             out[n] = a
         return out
